@@ -235,9 +235,12 @@ impl AsyncWalManager {
 
         // Replace active log
         let mut guard = self.active_log.lock().await;
-        if let Some(old_log) = guard.take() {
-            // Ensure old log is flushed
-            drop(old_log);
+        if let Some(mut old_log) = guard.take() {
+            // Make the retired file durable before it is replaced: every later
+            // sync() only touches the new file (and dropping a tokio BufWriter
+            // does not flush it).
+            old_log.writer.flush().await?;
+            old_log.writer.get_ref().sync_all().await?;
         }
         *guard = Some(new_log);
 
